@@ -78,6 +78,28 @@ macro_rules! vec { ($($x:expr),* $(,)?) => { MVec::from_array([$($x),*]) } }
 
 /// the representations `chain` distinguishes
 pub enum XSequence { Chain { parts: MVec<Val>, midpoint_lengths: MVec<usize> }, Other(Ghost<int>) }
+/// the length of a sequence (None: endless)
+pub uninterp spec fn slen(s: XSequence) -> Option<usize>;
+impl XSequence {
+    /// `XSequence::len`; for a chain the Chain arm (V-seq, item `chain_len`) answers the last part's length plus the last
+    /// midpoint: at least the last midpoint
+    #[verifier::external_body]
+    pub fn len(&self) -> (r: Option<usize>)
+        ensures r == slen(*self),
+            (mids_of(*self).len() > 0 && r is Some) ==> mids_of(*self)[mids_of(*self).len() - 1] <= r->Some_0,
+    { unimplemented!() }
+}
+impl<T> MVec<T> {
+    #[verifier::external_body]
+    pub fn last(&self) -> (r: Option<&T>) ensures r == (if self.v@.len() > 0 { Some(&self.v@[self.v@.len() - 1]) } else { None }) { unimplemented!() }
+}
+/// what the second operand spans beyond its start: its length, or -- endless -- its last midpoint
+pub open spec fn span_of(s: XSequence) -> int {
+    match slen(s) {
+        Some(l) => l as int,
+        None => match s { XSequence::Chain { midpoint_lengths, .. } if midpoint_lengths.v@.len() > 0 => midpoint_lengths.v@[midpoint_lengths.v@.len() - 1] as int, _ => 0 },
+    }
+}
 
 pub open spec fn sorted(m: Seq<usize>) -> bool { forall|i: int, j: int| 0 <= i < j < m.len() ==> m[i] <= m[j] }
 /// the parts a sequence contributes to a chain: its own parts, or itself
@@ -89,7 +111,7 @@ pub open spec fn mids_of(s: XSequence) -> Seq<usize> {
 }
 /// cumulative-length invariant of a chain (as far as V-seq's `get` needs it)
 pub open spec fn chain_ok(s: XSequence) -> bool {
-    s matches XSequence::Chain { parts, midpoint_lengths } ==> parts.v@.len() == midpoint_lengths.v@.len() + 1 && sorted(midpoint_lengths.v@)
+    s matches XSequence::Chain { parts, midpoint_lengths } ==> parts.v@.len() == midpoint_lengths.v@.len() + 1 && midpoint_lengths.v@.len() >= 1 && sorted(midpoint_lengths.v@)
 }
 
 /// XGenerator (builtin/generators.rs) as `chain` sees it
